@@ -535,12 +535,15 @@ def h_relay(X, nsteps, nmarks):
         if mode == "reverse":
             scheme = X.choose("reverse_scheme", ["https", "tcp", "tls"])
     else:
-        kind = X.choose("flight", ["http", "tls", "raw"])
+        kind = X.choose("flight", ["http", "tls", "raw", "raw-leading-blanks"])
         ignore, allow = ([PATTERNS[0]], []) if via == "ignore_hosts" else ([], [PATTERNS[2]])
     if kind == "http":
         data = b"POST /x HTTP/1.1\r\nHost: example.com\r\nContent-Length: 3\r\n\r\nabc"
     elif kind == "tls":
         data = client_hello("example.com")
+    elif kind == "raw-leading-blanks":
+        # a binary protocol whose first bytes happen to be ASCII blanks (SP HTAB VT FF): payload like any other
+        data = b" \t\x0b\x0c" + RAW_FLIGHT
     else:
         data = RAW_FLIGHT
     # (a first segment below the documented 3-byte minimum is not recognised as TLS: only meaningful when the rule decides)
@@ -622,6 +625,6 @@ def obligations(tier):
              + " x lazy/eager x ignore_hosts,allow_hosts in {unset, 3 patterns}^2 x 7 first flights (HTTP without Host / 2 Host values, ClientHello with 2 SNIs / none, raw) x "
              + ("a menu of <= 7 structural cut points" if q else "a menu of <= 13 structural cut points"), encoded=ENCODED,
              must_reach=["expect-ignored", "expect-intercept", "deferred", "decided-whole", "decided-after-deferral", "decided-on-prefix", "peer-known"], parallel_depth=4),
-        Symx("relay", lambda X: h_relay(X, 2 if q else 3, 2 if q else 3), bounds=f"ignored by ignore_hosts / allow_hosts / tls_clienthello hook x 4 modes x lazy/eager x flight {{http, tls, raw}} x 6 cut points x <= {2 if q else 3} markers "
+        Symx("relay", lambda X: h_relay(X, 2 if q else 3, 2 if q else 3), bounds=f"ignored by ignore_hosts / allow_hosts / tls_clienthello hook x 4 modes x lazy/eager x flight {{http, tls, raw, raw starting with SP HTAB VT FF}} x 6 cut points x <= {2 if q else 3} markers "
              f"({'2 payloads: HTTP-looking, 1040 bytes' if q else '3 payloads: HTTP-looking, 1040 bytes, 1 byte'}) in either direction", encoded=ENCODED, must_reach=["ignored", "marker-c2s", "marker-s2c"], parallel_depth=4),
     ]
